@@ -495,3 +495,136 @@ Print Assumptions C14_reader_consistent_accepts.
 Theorem C14_example_system_is_consistent : reader_consistent ex_sys = VBool true.
 Proof. exact ex_sys_consistent. Qed.
 Print Assumptions C14_example_system_is_consistent.
+
+(* ================= ignore at document level; sessions that already hold objects (ReaderSysN/P/Q/R/T/U/V) ================= *)
+From Coq Require Import List NArith ZArith.
+From DSD Require Import Base.Str Base.Errors Base.Val Model.ComplexUtils Model.ReaderStr Model.Peg Model.Heap Model.Registry
+  Model.Reader Model.ReaderShape Model.ReaderConsistent Model.DispatchReader Proofs.ReaderInv Proofs.ReaderThms
+  Proofs.ReaderSysA Proofs.ReaderSysJ Proofs.ReaderSysL Proofs.ReaderSysN Proofs.ReaderSysT Proofs.ReaderSysU.
+From DSDGen Require Import ReaderConsts.
+Import ListNotations.
+
+(* ---- ignore, at the level of the document ---- *)
+(* keep_lines ig lines (Model/ReaderConsistent.v): the lines that `ignore and line[0] in ignore` leaves.
+   read_pil(text, ignore = ig) is read_pil of those lines - in every session, errors included *)
+Theorem C14_read_pil_ignore_is_read_pil_of_kept_lines : forall ct g ig lines kept r,
+  keep_lines ig lines = Some kept -> read_pil ct g ig lines r = read_pil ct g None kept r.
+Proof. exact read_pil_ignore. Qed.
+Print Assumptions C14_read_pil_ignore_is_read_pil_of_kept_lines.
+
+(* the assembled statement with ignore: side condition = the remaining statements form a consistent system *)
+Theorem C14_reader_builds_ignore : forall ct cd cs cc cm cr,
+  cfg_okb ct cd cs cc cm cr = true ->
+  (forall c, In c [cd; cs; cc; cm; cr] -> exists ci, nth_error ct c = Some ci /\ c_fail ci = FNone) ->
+  forall ig lines kept ls ss,
+  keep_lines ig lines = Some kept -> decode_all kept = Some (ls, ss) -> consistentb ss = true ->
+  exists r out, read_pil ct (g cd cs cc cm cr) ig lines (rinit (init ct 0)) = (r, Ok out) /\
+                read_pil ct (g cd cs cc cm cr) None kept (rinit (init ct 0)) = (r, Ok out) /\
+                Reads cd cs cc cm cr ls ss r out.
+Proof. exact reader_builds_ignore. Qed.
+Print Assumptions C14_reader_builds_ignore.
+
+Theorem C14_reader_kept_consistent_accepts : forall text ig,
+  reader_kept_consistent text ig = VBool true ->
+  exists lines r out, parse_lines text = Ok lines /\
+    read_pil base_ctable base_g ig lines (rinit (init base_ctable 0)) = (r, Ok out).
+Proof. exact reader_kept_consistent_accepts. Qed.
+Print Assumptions C14_reader_kept_consistent_accepts.
+
+(* not vacuous: the example system read with ignore = [reaction, resting-macrostate] *)
+Theorem C14_example_ignore : ex_ignored_ok = true /\ reader_kept_consistent ex_sys (Some ex_ignore) = VBool true.
+Proof. exact ex_ignore_consistent. Qed.
+Print Assumptions C14_example_ignore.
+
+(* ---- sessions that already hold objects ----
+   SInv world r accU (Proofs/ReaderSysA.v): the session r is described by the statements `world` - every live
+   object is the exact object of a statement, filed in the dictionary accU of everything the session knows;
+   it holds in the empty session and after every read of this theorem (C14_fresh_read_leaves_a_described_session).
+   session_from world ss (Model/ReaderConsistent.v) = Some world': every statement of the document is returned as
+   it is, re-declares something of the session with the same description (foundb; a kernel statement may set another
+   concentration: refound replaces it in the description) or is new and admissible (admb).
+   Later0: the heap is only extended and every name keeps its object; Sub out accU': the result files objects of
+   the session; KeysOK ss out: under exactly the names the document declares. *)
+Theorem C14_reader_builds_session : forall ct cd cs cc cm cr,
+  cfg_okb ct cd cs cc cm cr = true ->
+  (forall c, In c [cd; cs; cc; cm; cr] -> exists ci, nth_error ct c = Some ci /\ c_fail ci = FNone) ->
+  forall world r accU lines ls ss world',
+  SInv cd cs cc cm cr ct world r accU -> decode_all lines = Some (ls, ss) -> session_from world ss = Some world' ->
+  exists r' out accU', read_pil ct (g cd cs cc cm cr) None lines r = (r', Ok out) /\
+    SInv cd cs cc cm cr ct world' r' accU' /\ Later0 r accU r' accU' /\ Sub out accU' /\ KeysOK ss out /\
+    po_other out = other_lines ls ss.
+Proof. exact reader_builds_session. Qed.
+Print Assumptions C14_reader_builds_session.
+
+(* a declared name that the session knows maps to the object the session holds: identical, not a copy *)
+Theorem C14_session_same_object : forall r accU r' accU' out ss k n i,
+  Later0 r accU r' accU' -> Sub out accU' -> KeysOK ss out -> k <> KindR ->
+  In n (declared k ss) -> dlookup n (dict_of k accU) = Some i -> dlookup n (dict_of k out) = Some i.
+Proof. exact session_same_object. Qed.
+Print Assumptions C14_session_same_object.
+
+(* the concentration of a complex is the one of its kernel statement in the description of the session: after a
+   re-declaration with another triple, the newly declared one *)
+Theorem C14_session_concentration : forall ct cd cs cc cm cr world' r' accU' n names sst c,
+  SInv cd cs cc cm cr ct world' r' accU' -> In (SKer n names sst (Some c)) world' ->
+  exists i, dlookup n (po_complexes accU') = Some i /\ attr_get i (r_conc r') = Some c.
+Proof. exact session_concentration. Qed.
+Print Assumptions C14_session_concentration.
+
+(* one re-declaring kernel statement: read, the complex is the held one and carries the declared triple *)
+Theorem C14_redeclared_concentration_is_set : forall ct cd cs cc cm cr,
+  cfg_okb ct cd cs cc cm cr = true ->
+  (forall c, In c [cd; cs; cc; cm; cr] -> exists ci, nth_error ct c = Some ci /\ c_fail ci = FNone) ->
+  forall world r accU line s w,
+  SInv cd cs cc cm cr ct world r accU -> decode line = Ok s -> refound world s = Some w ->
+  exists r' d, (forall accR, read_one ct (g cd cs cc cm cr) None (TList line) accR r = (r', Ok (apply_delta d accR))) /\
+    SInv cd cs cc cm cr ct w r' accU /\ Later0 r accU r' accU /\ InSession accU d /\ ShapeOf s d /\
+    exists n names sst c i, s = SKer n names sst (Some c) /\ d = FKind KindC n i /\ attr_get i (r_conc r') = Some c.
+Proof. exact refound_stmt. Qed.
+Print Assumptions C14_redeclared_concentration_is_set.
+
+(* the sessions the theorem is about exist: what reading a consistent document in the empty session leaves *)
+Theorem C14_fresh_read_leaves_a_described_session : forall ct cd cs cc cm cr,
+  cfg_okb ct cd cs cc cm cr = true ->
+  (forall c, In c [cd; cs; cc; cm; cr] -> exists ci, nth_error ct c = Some ci /\ c_fail ci = FNone) ->
+  forall lines ls ss,
+  decode_all lines = Some (ls, ss) -> consistentb ss = true ->
+  exists r out, read_pil ct (g cd cs cc cm cr) None lines (rinit (init ct 0)) = (r, Ok out) /\
+                SInv cd cs cc cm cr ct ss r out.
+Proof. exact fresh_read_session. Qed.
+Print Assumptions C14_fresh_read_leaves_a_described_session.
+
+(* two documents one after the other, the result of the first held *)
+Theorem C14_reader_builds_second_read : forall ct cd cs cc cm cr,
+  cfg_okb ct cd cs cc cm cr = true ->
+  (forall c, In c [cd; cs; cc; cm; cr] -> exists ci, nth_error ct c = Some ci /\ c_fail ci = FNone) ->
+  forall lines1 ls1 ss1 lines2 ls2 ss2 world',
+  decode_all lines1 = Some (ls1, ss1) -> consistentb ss1 = true ->
+  decode_all lines2 = Some (ls2, ss2) -> session_from ss1 ss2 = Some world' ->
+  exists r1 out1 r2 out2 accU2,
+    read_pil ct (g cd cs cc cm cr) None lines1 (rinit (init ct 0)) = (r1, Ok out1) /\
+    read_pil ct (g cd cs cc cm cr) None lines2 r1 = (r2, Ok out2) /\
+    SInv cd cs cc cm cr ct world' r2 accU2 /\ Later0 r1 out1 r2 accU2 /\ Sub out2 accU2 /\ KeysOK ss2 out2 /\
+    (forall k n i, k <> KindR -> In n (declared k ss2) -> dlookup n (dict_of k out1) = Some i ->
+                   dlookup n (dict_of k out2) = Some i).
+Proof. exact reader_builds_second_read. Qed.
+Print Assumptions C14_reader_builds_second_read.
+
+Theorem C14_reader_session_accepts : forall text1 text2,
+  reader_session text1 text2 = VBool true ->
+  exists lines1 lines2 ss2 r1 out1 r2 out2,
+    parse_lines text1 = Ok lines1 /\ parse_lines text2 = Ok lines2 /\ (exists ls2, decode_all lines2 = Some (ls2, ss2)) /\
+    read_pil base_ctable base_g None lines1 (rinit (init base_ctable 0)) = (r1, Ok out1) /\
+    read_pil base_ctable base_g None lines2 r1 = (r2, Ok out2) /\
+    (forall k n i, k <> KindR -> In n (declared k ss2) -> dlookup n (dict_of k out1) = Some i ->
+                   dlookup n (dict_of k out2) = Some i).
+Proof. exact reader_session_accepts. Qed.
+Print Assumptions C14_reader_session_accepts.
+
+(* not vacuous: the example system read twice; a second document that re-declares, uses and extends the first; a
+   third that re-declares X with another concentration (the description afterwards has the new triple only) *)
+Theorem C14_example_sessions :
+  reader_session ex_sys ex_sys = VBool true /\ reader_session ex_sys ex_second = VBool true /\
+  reader_session ex_sys ex_third = VBool true /\ third_conc_ok = true.
+Proof. exact (conj ex_reread (conj ex_second_read ex_third_read)). Qed.
+Print Assumptions C14_example_sessions.
